@@ -65,7 +65,13 @@ def creps(r):
 
 
 BOPS = {'add': 'BAdd', 'sub': 'BSub', 'mul': 'BMul', 'div': 'BDiv', 'floordiv': 'BFloordiv', 'mod': 'BMod',
-        'min': 'BMin', 'max': 'BMax', 'lt': 'BLt', 'le': 'BLe', 'gt': 'BGt', 'ge': 'BGe', 'eq': 'BEq', 'ne': 'BNe'}
+        'min': 'BMin', 'max': 'BMax', 'lt': 'BLt', 'le': 'BLe', 'gt': 'BGt', 'ge': 'BGe', 'eq': 'BEq', 'ne': 'BNe',
+        'pow': 'BPow', 'lshift': 'BShl', 'rshift': 'BShr', 'bitand': 'BAnd', 'bitor': 'BOr', 'bitxor': 'BXor'}
+NAMED = ['round', 'roundup', 'trunc', 'thresh', 'clip2', 'wrap2', 'fold2', 'excess', 'scaleneg', 'amclip', 'ring1', 'ring2', 'ring3', 'ring4', 'difsqr', 'sumsqr', 'sqrsum', 'sqrdif', 'absdif']
+for _n in NAMED:
+    BOPS[_n] = '(BNamed K%s)' % _n.capitalize()
+NONCOMM = ['sub', 'div', 'floordiv', 'mod', 'pow', 'lshift', 'rshift', 'lt', 'le', 'gt', 'ge'] + \
+          [n for n in NAMED if n not in ('sumsqr', 'sqrsum', 'absdif', 'ring3')]
 UOPS = {'neg': 'UNeg', 'abs': 'UAbs'}
 NOPS = {'clip': 'NClip', 'wrap': 'NWrap', 'fold': 'NFold'}
 FNS = {'boom': 'FBoom', 'inc': 'FInc', 'dbl': 'FDbl', 'neg': 'FNeg', 'pair': 'FPair', 'even': 'FEven', 'lt3': 'FLt3', 'pos': 'FPos'}
@@ -450,6 +456,8 @@ class Gen:
             p, fin, mn = G(sort)
             return ['Punop', r.choice(['neg', 'abs']), p], fin, mn
         if k == 'Pbinop':
+            if r.random() < 0.3:
+                return self._binop_more(sort, d, lo, hi)
             a, fa, ma = G(sort)
             op = r.choice(['add', 'sub', 'mul', 'min', 'max', 'add', 'sub', 'mul', 'floordiv', 'mod', 'div'])
             if op in ('floordiv', 'mod', 'div'):
@@ -524,6 +532,53 @@ class Gen:
             start = r.choice([0, 0, 1, 2, -1, -3, len(xs), 7])
             return ['Pslide', xs, ln, st, start, r.choice([1, 1, 0]), rp], (fin and (not inf or fl or fs)), 0
         raise AssertionError(k)
+
+    def _binop_more(self, sort, d, lo, hi):
+        """The other binary operators of AbstractObject: ** << >> & | ^ and the named kernels, with a
+        plain number on EITHER side (reflected forms) or two patterns."""
+        r = self.rng
+        ints = sort == 'int' or (sort == 'num' and r.random() < 0.4)
+        kinds = ['pow', 'pow', 'named', 'named', 'named'] + (['shift', 'bit'] if ints else [])
+        kind = r.choice(kinds)
+        s = 'int' if ints else sort
+        a, fa, ma = self.gen(s, d - 1, 'str', lo=lo, hi=hi)
+        small = lambda: ['Pseq', [V(vi(r.randint(0, 3))) for _ in range(r.randint(1, 3))], self.reps(True), 0]
+        if kind == 'pow':
+            # int exponents 0..3 (exact); base or exponent may be the plain number
+            if r.random() < 0.5:
+                b = V(vi(r.randint(0, 3))) if r.random() < 0.5 else small()
+                e = ['Pbinop', 'pow', a, b]
+            else:
+                base = V(self.leaf(s)) if r.random() < 0.6 else a
+                e = ['Pbinop', 'pow', base, small() if base[0] == 'val' or r.random() < 0.5 else V(vi(r.randint(0, 3)))]
+        elif kind == 'shift':
+            op = r.choice(['lshift', 'rshift'])
+            cnt = V(vi(r.randint(0, 3))) if r.random() < 0.5 else small()
+            e = ['Pbinop', op, a, cnt] if r.random() < 0.6 else ['Pbinop', op, V(vi(r.randint(-9, 40))), small()]
+        elif kind == 'bit':
+            op = r.choice(['bitand', 'bitor', 'bitxor'])
+            b, fb, mb = self.gen('int', d - 1, 'str', lo=lo, hi=hi)
+            e = ['Pbinop', op, a, b] if r.random() < 0.5 else ['Pbinop', op, V(vi(r.randint(-9, 9))), a]
+        else:
+            op = r.choice(NAMED)
+            if op in ('ring1', 'ring2', 'ring3', 'ring4', 'difsqr', 'sumsqr', 'sqrsum', 'sqrdif') and d > 2:
+                a, fa, ma = self.gen(s, 1, 'str', lo=lo, hi=hi)          # products: keep the magnitudes small
+            z = r.random()
+            other = V(self.leaf(s)) if r.random() < 0.7 else self.gen(s, min(d - 1, 1), 'str', lo=lo, hi=hi)[0]
+            e = ['Pbinop', op, a, other] if z < 0.5 else ['Pbinop', op, other, a]
+        fin, mn = self._fin_of_binop(e)
+        return e, fin, mn
+
+    def _fin_of_binop(self, e):
+        def info(x):
+            if x[0] == 'val':
+                return False, INFN
+            if x[0] == 'Pseq' and all(y[0] == 'val' for y in x[1]):
+                return (x[2] != 'inf'), (INFN if x[2] == 'inf' else len(x[1]) * max(x[2], 0))
+            return None
+        ia, ib = info(e[2]), info(e[3])
+        fin = bool((ia and ia[0]) or (ib and ib[0]))
+        return fin, 0
 
     def _tuple(self, d, lo, hi):
         r = self.rng
@@ -671,6 +726,11 @@ def directed():
         ['Pslide', [I(1), I(2), I(3)], I(3), I(1), 0, 0, 3], ['Pslide', [I(1), I(2), I(3)], I(1), I(1), 2, 0, 3],
         ['Pslide', [I(1), I(2), I(3)], I(1), I(-1), 0, 0, 3], ['Pslide', [I(1), I(2), I(3)], I(4), I(3), -3, 1, 2],
         ['Pswitch', [I(1), I(2), I(3)], S([2, 3, -1, -3, -4])], ['Pswitch1', [I(1), I(2), I(3)], S([2, 3, -1, -3, -4])],
+        # indices that are equal modulo the size but differ as numbers must reach the SAME persistent stream
+        ['Pswitch1', [S([1, 2, 3, 4, 5, 6]), S([10, 20, 30, 40, 50, 60])], S([0, 2, -2, 1, 3, -1, 4, 5, -4])],
+        ['Pswitch1', [S([1, 2, 3, 4, 5, 6]), S([10, 20, 30, 40, 50, 60])], ['Pseries', vi(0), I(1), 9]],
+        ['Pswitch1', [S([1, 2, 3, 4], 'inf')], ['Pseries', vi(-3), I(2), 6]],
+        ['Pswitch', [S([1, 2]), S([10, 20])], S([0, 2, -2, 1, 3, -1])],
         S([7], 3, 1), ['Pser', [I(7)], 3, 1], ['Pdiff', S([1, 2])], ['Pseed', S([4]), ['Pxrand', [I(9)], 3]],
         ['Pfun', 'select', 'lt3', S([3, 2, 3])], ['Pfun', 'reject', 'lt3', S([3, 2, 3])],
     ]
@@ -685,9 +745,18 @@ def directed():
                 ['Ptuple', [a, b], 1], ['Ptuple', [I(0), a, b], 2], ['Pif', a, b, b], ['Pif', S([1, 1]), a, b],
                 ['Pif', S([0, 0]), b, a], ['Pseries', vi(0), a, 1], ['Pslide', [I(1), I(2)], a, b, 0, 1, 3],
                 ['Pslide', [I(1), I(2)], b, a, 0, 1, 3], ['Pseed', S([2]), ['Pwhite', a, b, 3]]]
-    # non-commutative operators with a plain value on either side (reflected methods)
-    for op in ('sub', 'div', 'floordiv', 'mod', 'lt', 'ge', 'min', 'max'):
-        out += [['Pbinop', op, I(8), S([1, 2, 4])], ['Pbinop', op, S([1, 2, 4]), I(8)]]
+    # EVERY binary operator of AbstractObject with a plain number on either side (reflected forms),
+    # standalone and nested; operands chosen so that a op b != b op a for the non-commutative ones
+    for op in sorted(BOPS):
+        x, ys = (2, [1, 2, 3, 5]) if op in ('pow', 'lshift', 'rshift') else ((8, [1, 2, 4, 16]) if op == 'div' else (8, [1, 2, 4, 3]))
+        refl, fwd, both = ['Pbinop', op, I(x), S(ys)], ['Pbinop', op, S(ys), I(x)], ['Pbinop', op, S(ys), S([x, 1, 2])]
+        out += [refl, fwd, both, ['Pseq', [refl, I(0), fwd], 2, 1], ['Pbinop', 'sub', I(100), ['Pn', refl, 2]],
+                ['Pstutter', refl, I(2)], ['Pbinop', op, I(x), ['Pbinop', op, I(x), S([1, 2])]]]
+    for op in ('pow', 'div', 'sub', 'floordiv', 'mod', 'round', 'thresh', 'scaleneg'):
+        F_ = lambda v: V(vf(v))
+        out += [['Pbinop', op, F_(Fraction(1, 2)), S([1, 2, 4])], ['Pbinop', op, ['Pseq', [F_(Fraction(3, 2)), F_(-2)], 1, 0], I(2)]]
+    out += [['Pbinop', 'pow', I(2), S([-1, -2, 0])], ['Pbinop', 'pow', S([2, 4, 0]), I(-1)], ['Pbinop', 'pow', I(0), S([0, 1, -1])],
+            ['Pbinop', 'lshift', I(1), S([0, 1, -1])], ['Pbinop', 'rshift', S([8, -8]), I(1)]]
     return out
 
 
@@ -1034,4 +1103,11 @@ def search(ctx, failures):
             break
     if any('seed' in (f.replay.get('show') or '') for f in failures) or not found:
         found.extend(random_laws(ctx))
+    # lifting law of every binary operator (number op pattern, pattern op number, nested)
+    try:
+        for b in ctx.impl('c13_reflected', {})['bad'][:3]:
+            found.append(Failure('search', 'operator lifting law fails on %s: got %s, element-wise %s' % (b['expr'], b['got'], b['want']),
+                                 signature='C13:operator_lifting', found_input=True, theorem='binop_ends_with_shortest', replay=b))
+    except fw.ImplError as e:
+        fw.log('reflected probe failed: %s' % e)
     return found
